@@ -377,3 +377,27 @@ package core
 //@   ensures [charged]   accountdb != nil && hexAddr(source) != common.FeeAccount ==> balOf(hexAddr(source)) == old(balOf(hexAddr(source))) - ite(old(balOf(hexAddr(source))) < gasUsed * big(types.DefaultGasPrice), old(balOf(hexAddr(source))), gasUsed * big(types.DefaultGasPrice))
 //@   ensures [credited]  accountdb != nil && hexAddr(source) != common.FeeAccount ==> balOf(common.FeeAccount) == old(balOf(common.FeeAccount)) + (old(balOf(hexAddr(source))) - balOf(hexAddr(source)))
 //@   modifies ghost(bal), ghost(supply)
+
+// ---------------------------------------------------------------------------------------------
+// The working store of a group fork (C19): the group chain and the fork are namespaces of ONE key-value store,
+// kept apart by their prefix only, and both use height keys and raw group ids. The fork's store must therefore be
+// opened under a prefix that is not the group chain's - otherwise opening, filling and destroying a fork
+// rewrites and deletes the chain's height index and id entries.
+//@ spec abstract fn dbPrefix(d Iface) string
+//@ func ext_newDatabase
+//@   option trusted extern=com.tuntun.rangers/node/src/middleware/db.NewDatabase
+//@   ensures result1 == nil ==> dbPrefix(result0) == arg0
+//@   ensures dbPrefix(result0) == arg0
+//@   modifies nothing
+
+//@ func ext_unmarshalGroup
+//@   option trusted extern=com.tuntun.rangers/node/src/middleware/types.UnMarshalGroup
+//@   ensures result1 == nil && result0 != nil ==> fresh(result0)
+//@   modifies nothing
+
+//@ func refreshGroupForkDB
+//@   property C19
+//@   option nosafety
+//@   requires [env!init] syncLogger != nil
+//@   ensures [separate] dbPrefix(result) != groupChainPrefix
+//@   loop 0: invariant true
